@@ -181,8 +181,12 @@ type c03Tx struct {
 }
 
 type c03Block struct {
-	Txs     []c03Tx `json:"txs"`
-	Persist int     `json:"persist,omitempty"` // after the block: 1 = flush the write cache, 2 = flush + GC tick
+	// Drop: before this block a DIFFERENT block for the same height is executed up to and including AddMPTBatch and then
+	// refused (hook VerifDropMPTBatch: what storeBlock's error returns leave behind); its storage changes:
+	// [contract id ++ key hex, value hex | "-"]
+	Drop    [][2]string `json:"drop,omitempty"`
+	Txs     []c03Tx     `json:"txs"`
+	Persist int         `json:"persist,omitempty"` // after the block: 1 = flush the write cache, 2 = flush + GC tick
 }
 
 type c03Probe struct {
@@ -1083,7 +1087,7 @@ func c03RunChain(co *caseOut, in c03Input, r *rng) {
 	var coqBlocks []string
 	vals := &c03Vals{m: map[string]int{}}
 	coqGenesis := c03CoqKVs(vals, c03Sorted(recs[0].dump))
-	txCount, faults := 0, 0
+	txCount, faults, refused := 0, 0, 0
 	for bi, blk := range in.Ops {
 		var txs []*transaction.Transaction
 		failed := ""
@@ -1104,6 +1108,25 @@ func c03RunChain(co *caseOut, in c03Input, r *rng) {
 			continue
 		}
 		prev := recs[len(recs)-1].dump
+		if len(blk.Drop) > 0 {
+			ch := map[string][]byte{}
+			for _, p := range blk.Drop {
+				k := append([]byte{byte(storage.STStorage)}, unhx(p[0])...)
+				if p[1] == "-" {
+					ch[string(k)] = nil
+				} else if v := unhx(p[1]); v != nil {
+					ch[string(k)] = v
+				} else {
+					ch[string(k)] = []byte{}
+				}
+			}
+			var derr error
+			if p := catch(func() { _, derr = bc.VerifDropMPTBatch(ch) }); p != "" || derr != nil {
+				viol(fmt.Sprintf("executing a block that is then refused fails in AddMPTBatch: %s %v", p, derr), map[string]any{"height": bc.BlockHeight() + 1})
+				return
+			}
+			refused++
+		}
 		if p := catch(func() { c.e.AddNewBlock(c.t, txs...) }); p != "" {
 			viol(fmt.Sprintf("block %d (op %d) rejected: %s", bc.BlockHeight()+1, bi, p), map[string]any{"height": bc.BlockHeight() + 1})
 			return
@@ -1820,7 +1843,13 @@ func c03RunChain(co *caseOut, in c03Input, r *rng) {
 	if faults > 0 {
 		tag += "+faults"
 	}
-	co.add(kind, tag, txCount > 0 && H > 1, in, map[string]any{"height": H, "txs": txCount, "faulted": faults, "checks": checks},
+	if maxSlot == 0 {
+		tag += "+natives-only"
+	}
+	if refused > 0 {
+		tag += "+refused-blocks"
+	}
+	co.add(kind, tag, txCount > 0 && H > 1, in, map[string]any{"height": H, "txs": txCount, "faulted": faults, "refused": refused, "checks": checks},
 		fmt.Sprintf("CHistory %s %s", coqGenesis, coqList(coqBlocks)))
 }
 
@@ -1855,10 +1884,32 @@ func c03GenChain(r *rng, cfg string) c03Input {
 			nb = 2 + r.intn(4) // a chain shorter than MaxTraceableBlocks
 		}
 	}
-	in.Ops = append(in.Ops, c03Block{Txs: []c03Tx{{T: "deploy", Slot: 0}}})
-	deployed[0] = true
+	// a chain with native contracts only: every storage key starts with nibble F, the root of the trie is an extension
+	nativesOnly := r.chance(30)
+	if !nativesOnly {
+		in.Ops = append(in.Ops, c03Block{Txs: []c03Tx{{T: "deploy", Slot: 0}}})
+		deployed[0] = true
+	}
+	dropIDs := [][]byte{{0xfb, 0xff, 0xff, 0xff}, {0xfa, 0xff, 0xff, 0xff}, {0xf9, 0xff, 0xff, 0xff}}
+	if !nativesOnly {
+		dropIDs = append(dropIDs, []byte{0x01, 0x00, 0x00, 0x00}, []byte{0x02, 0x00, 0x00, 0x00})
+	}
 	for b := 0; b < nb; b++ {
 		blk := c03Block{}
+		if r.chance(30) {
+			// a different block for this height is executed and refused first; it writes keys the accepted one does not
+			for i, m := 0, 1+r.intn(3); i < m; i++ {
+				k := append(bytes.Clone(pick(r, dropIDs)), 0x77, byte(r.intn(4)))
+				if r.chance(25) {
+					k = append(bytes.Clone(pick(r, dropIDs)), pick(r, pool)...)
+				}
+				v := hx(pick(r, vals))
+				if r.chance(15) {
+					v = "-"
+				}
+				blk.Drop = append(blk.Drop, [2]string{hx(k), v})
+			}
+		}
 		if r.chance(35) {
 			blk.Persist = 1 + r.intn(2)
 		}
@@ -1868,6 +1919,9 @@ func c03GenChain(r *rng, cfg string) c03Input {
 		ntx := 1 + r.intn(4)
 		for t := 0; t < ntx; t++ {
 			c := r.intn(100)
+			if nativesOnly {
+				c = 62 + r.intn(18) // GAS / NEO transfers and role designation only
+			}
 			switch {
 			case c < 62:
 				slot := r.intn(nslots)
@@ -1922,7 +1976,7 @@ func c03GenChain(r *rng, cfg string) c03Input {
 				}
 			}
 		}
-		if len(blk.Txs) > 0 {
+		if len(blk.Txs) > 0 || len(blk.Drop) > 0 {
 			in.Ops = append(in.Ops, blk)
 		}
 	}
